@@ -21,8 +21,9 @@ def p_paths(ctx):
             secs = sum(x[2] for x in res.d[name])
             # obligations refuted on the unchanged tree inside the region of a recorded finding: each has a sibling obligation that is
             # PROVED under the complementary precondition (that is what makes the region exact)
-            fid = next((f for f, rx in c08_paths.KNOWN if rx.search(name)), None)
-            if st == REFUTED and fid and ctx.is_known(fid):
+            fids = next((f for f, rx in c08_paths.KNOWN if rx.search(name)), ())
+            fid = next((f for f in fids if ctx.is_known(f)), None)
+            if st == REFUTED and fid:
                 ctx.obligation(name, fn, "refuted-known", e[3], secs, detail=e[4], model=e[1], sample=True)
                 ctx.known_finding(fid)
                 continue
